@@ -196,6 +196,31 @@ class Model:
         except RecursionError:
             return True
 
+    def between(self, head: int, tail: int) -> typing.Optional[set]:
+        """Nodes on some head-to-tail path over untrained subscribers (what Segment.copy forks); None when the
+        answer is not a plain function of the edges (placeholders around, cycles)."""
+        if any(m['kind'] == 'future' for m in self.nodes.values()):
+            return None
+        found: set = set()
+
+        def walk(n: int, members: tuple) -> bool:
+            if n == tail:
+                found.update(members)
+                return True
+            for d in self.subs(n):
+                if self.trained(d):
+                    continue
+                if d in members:
+                    raise RecursionError
+                walk(d, members + (d,))
+            return False
+
+        try:
+            walk(head, (head,))
+        except RecursionError:
+            return None
+        return found or None
+
     def future_subscribed(self, fut: int, pub: int) -> bool:
         for p, _, d, _ in self.raw:
             if d == fut:
@@ -272,6 +297,9 @@ class Model:
 # ------------------------------------------------------------------------------------------------
 # workload generation
 # ------------------------------------------------------------------------------------------------
+RETRIES = True
+
+
 def gen_ops(rng: random.Random, nops: int) -> list[dict]:
     """Ops are total: indices are taken modulo what exists at execution time."""
     ops = []
@@ -303,9 +331,13 @@ def gen_ops(rng: random.Random, nops: int) -> list[dict]:
         elif kind == 'connect':
             op.update(pub=rng.randrange(64), b=rng.randrange(2), sub=rng.randrange(64), a=rng.randrange(2),
                       via=rng.choice(['subscribe', 'publish']))
+            if RETRIES and rng.random() < 0.4:
+                op['retry'] = True
         elif kind == 'train':
             op.update(node=rng.randrange(64), tp=rng.randrange(64), tb=rng.randrange(2), lp=rng.randrange(64),
                       lb=rng.randrange(2))
+            if RETRIES and rng.random() < 0.4:
+                op['retry'] = True
         elif kind == 'segment':
             op.update(head=rng.randrange(64), tail=rng.choice([None, None, rng.randrange(64)]))
         elif kind in ('copy', 'compose'):
@@ -418,7 +450,7 @@ def run_case(ops: list[dict], known_sites: typing.Sequence[str] = ()) -> dict:
     violation = None
 
     def call(fn, where: str, expect_error: typing.Optional[str], step: int, mutate=None, unknown=False,
-             only_cycles: typing.Optional[bool] = None):
+             only_cycles: typing.Optional[bool] = None, retry: bool = False):
         """Run one API call; compare verdict; on error require the graph to be exactly as it was."""
         before = world.observe()
         err = None
@@ -440,6 +472,23 @@ def run_case(ops: list[dict], known_sites: typing.Sequence[str] = ()) -> dict:
             reason = str(err)
             del err
             after = world.observe()
+            if retry:
+                # a refused call repeated verbatim is refused again ("failed calls followed by retries") - also when
+                # the first refusal left something behind (listed findings): then the retry is the only thing
+                # still judged, on the state as the refusal left it
+                stats['retries'] += 1
+                try:
+                    fn()
+                except flow.TopologyError:
+                    pass
+                else:
+                    raise CaseViolation('refused-call-accepted-on-retry',
+                                        f'{where}: raised TopologyError({reason}); the identical call repeated right '
+                                        f'away was accepted', step)
+                if after == before and world.observe() != before:
+                    raise CaseViolation('state-changed-after-error',
+                                        f'{where}: refused twice (TopologyError({reason})), the second refusal changed '
+                                        f'the graph: {_diff(before, world.observe())}', step)
             if after != before:
                 raise CaseViolation('state-changed-after-error',
                                     f'{where}: raised TopologyError({reason}) but the graph changed: '
@@ -504,7 +553,7 @@ def run_case(ops: list[dict], known_sites: typing.Sequence[str] = ()) -> dict:
                     fn = lambda: world.nodes[d][a].subscribe(world.nodes[p][b])  # noqa: E731
                 else:
                     fn = lambda: world.nodes[p][b].publish(world.nodes[d], port.Apply(a))  # noqa: E731
-                call(fn, where, reason, step, mutate=lambda: model.add_edge(p, b, d, q))
+                call(fn, where, reason, step, mutate=lambda: model.add_edge(p, b, d, q), retry=bool(op.get('retry')))
                 stats['op:connect'] += 1
             elif kind == 'train':
                 if nn < 1:
@@ -534,7 +583,8 @@ def run_case(ops: list[dict], known_sites: typing.Sequence[str] = ()) -> dict:
 
                 try:
                     call(lambda: world.nodes[w].train(world.nodes[tp][tb], world.nodes[lp][lb]), where, reason, step,
-                         mutate=commit)
+                         mutate=commit, retry=bool(op.get('retry')) and reason in ('stateless node training',
+                                                                                    'fork train collision'))
                 except CaseViolation as err:
                     # listed finding 'train-not-atomic': the refused train kept its Train subscription. Adopt exactly
                     # that state (and nothing else) so that the rest of the sequence is still judged.
@@ -573,6 +623,8 @@ def run_case(ops: list[dict], known_sites: typing.Sequence[str] = ()) -> dict:
                 if len(world.nodes) + 4 > MAXNODES + 6:
                     continue
                 before = world.observe()
+                sizes = [len(n.group) if isinstance(n, atomic.Worker) else None for n in world.nodes]
+                between = model.between(head, tail)
                 try:
                     clone = seg.copy()
                 except (flow.TopologyError, KeyError) as exc:
@@ -585,6 +637,18 @@ def run_case(ops: list[dict], known_sites: typing.Sequence[str] = ()) -> dict:
                 if world.observe() != before:
                     raise CaseViolation('copy-mutated-original', f'step {step}: Segment.copy() changed the original '
                                                                  f'graph: {_diff(before, world.observe())}', step)
+                if between is not None:
+                    # copy() forks exactly the nodes on the head-to-tail paths (every fork joins its original's group)
+                    for i, node in enumerate(world.nodes):
+                        if sizes[i] is None:
+                            continue
+                        want = sum(1 for m in between if model.nodes[m]['group'] == model.nodes[i]['group'])
+                        if len(node.group) - sizes[i] != want:
+                            raise CaseViolation('copy-forked-wrong-nodes',
+                                                f'step {step}: Segment(node{head}..node{tail}).copy() - the nodes between '
+                                                f'head and tail are {sorted(between)}; the group of node{i} grew by '
+                                                f'{len(node.group) - sizes[i]} instead of {want}', step)
+                    stats['copy-structure-checked'] += 1
                 stats['op:copy'] += 1
                 del clone  # copies are checked for isolation only; they die here (their subscriptions with them)
             elif kind == 'compose':
